@@ -313,7 +313,7 @@ func c08Ownership(w *World, r *Report) {
 		"FileSystemOperation).cleanUpDirectory": "owner",
 		"FileSystemOperation).storeFileOnDisk":  "owner",
 		"TxnPoliciesAccessor).UpdateRawData":    "policy-mode writer of policies.yaml (listed)",
-		"path_params.createYAMLFile":           "generated path-params file (listed)",
+		"path_params.createYAMLFile":            "generated path-params file (listed)",
 	}
 	for _, cs := range w.CallSites("os.Remove", "os.RemoveAll", "os.Create", "os.WriteFile", "os.MkdirAll", "os.Rename", "os.OpenFile", "os.Truncate") {
 		if !strings.HasPrefix(fnPkgPath(cs.Fn), "lunar/engine/") {
